@@ -613,3 +613,14 @@ pub fn valid_name(s: &str) -> bool {
         _ => false,
     }
 }
+
+/// Used by the fuzz target on arbitrary accepted names: same rule, any characters.
+pub fn valid_name_regex_compatible(s: &str) -> bool {
+    let mut chars = s.chars();
+    // \w in the regex crate: alphabetic, marks, decimal numbers, connector punctuation, join controls
+    let word = |c: char| c.is_alphanumeric() || c == '_' || (!c.is_ascii() && !c.is_whitespace() && !c.is_control());
+    match chars.next() {
+        Some(c) if word(c) => chars.all(|c| word(c) || c == '-'),
+        _ => false,
+    }
+}
